@@ -399,4 +399,58 @@ theorem den_discount_rows (t : List (Entry K)) (rows : List (Row K)) (n : Nat) (
   unfold denRows
   rw [← e1, e2]
 
+/-! ### exact (entry-list) insensitivity to rows of zero-score peers -/
+
+theorem discountLoop_nil_rows (t1 t : List (Entry K)) : discountLoop t1 [] t = t := by
+  cases t1 <;> simp [discountLoop]
+
+/-- replacing the rows of peers whose dense score is zero does not change the computed list -/
+theorem discountLoop_map_rows (f : Row K × Nat → Row K) (t1 : List (Entry K))
+    (rows : List (Row K × Nat)) (t : List (Entry K)) (h1 : Sorted t1)
+    (hr : rows.Pairwise (fun a b => a.2 < b.2))
+    (hf : ∀ p ∈ rows, denE t1 p.2 ≠ 0 → f p = p.1) :
+    discountLoop t1 (rows.map fun p => (f p, p.2)) t = discountLoop t1 rows t := by
+  fun_induction discountLoop t1 rows t with
+  | case1 rows t => simp [discountLoop]
+  | case2 t1 t _ => simp [discountLoop_nil_rows]
+  | case3 s t1 row d rows t hlt ih =>
+    rw [List.map_cons, discountLoop, if_pos hlt]
+    refine ih h1.tail hr ?_
+    intro p hp hne
+    apply hf p hp
+    have hge : d ≤ p.2 := by
+      rcases List.mem_cons.mp hp with rfl | hp
+      · exact le_refl _
+      · exact le_of_lt ((List.pairwise_cons.mp hr).1 p hp)
+    have : s.idx ≠ p.2 := by omega
+    simpa [this] using hne
+  | case4 s t1 row rows t hlt ih =>
+    rw [List.map_cons, discountLoop, if_neg hlt, if_pos rfl]
+    have hrow : (Vec.scale s.val ⟨0, f (row, s.idx)⟩).entries = (Vec.scale s.val ⟨0, row⟩).entries := by
+      by_cases hz : s.val = 0
+      · simp [Vec.scale, hz]
+      · have : f (row, s.idx) = row := by
+          apply hf (row, s.idx) (by simp)
+          simp [denE_tail_of_le_head h1 (le_refl _), hz]
+        rw [this]
+    rw [hrow]
+    apply ih h1.tail (List.pairwise_cons.mp hr).2
+    intro p hp hne
+    apply hf p (by simp [hp])
+    have : s.idx < p.2 := (List.pairwise_cons.mp hr).1 p hp
+    have : s.idx ≠ p.2 := by omega
+    simpa [this] using hne
+  | case5 s t1 row d rows t hlt hne ih =>
+    rw [List.map_cons, discountLoop, if_neg hlt, if_neg hne]
+    exact ih h1 (List.pairwise_cons.mp hr).2 (fun p hp => hf p (by simp [hp]))
+
+omit [Field K] [LinearOrder K] in
+theorem zipIdx_eq_map_of_length_eq (l l' : List (Row K)) (h : l'.length = l.length) :
+    l'.zipIdx = l.zipIdx.map fun p => (l'.getD p.2 [], p.2) := by
+  apply List.ext_getElem
+  · simp [h]
+  · intro j h1 h2
+    simp only [List.length_zipIdx] at h1
+    simp [List.getD_eq_getElem?_getD, List.getElem?_eq_getElem h1]
+
 end EtVerif.Distrust
